@@ -21,7 +21,8 @@ func init() {
 			"(R2) the event 'family map replaced by the empty-qualifier map' has the same truth table in valuesToProto, in the sizing loop and in the writing loop of valuesToCellblocks, and the cell count is taken after it; " +
 			"(R3) linear forms: cellblockLen(r,f,q,v) = bytes appendCellblock writes = 4 + the key-value length it stores; the key length it stores = 2+r+1+f+q+8+1; the constant the reader subtracts to get the qualifier length equals the writer's fixed key overhead; " +
 			"(R4) field widths: every fixed-width write converts to exactly the field's width (no narrower intermediate conversion), the reader's constant slices have the accessor's width, and the fixed header offsets/widths of writer and reader agree; " +
-			"(R5) both encodings map the MaxTimestamp sentinel to 'latest' under the same condition.",
+			"(R5) both encodings map the MaxTimestamp sentinel to 'latest' under the same condition." +
+			" Added after the seeded-change rounds: (R3) provenance of every field the reader extracts and the order of the fields the writer emits; buffers are returned to the pool only at the request-side sites of C02.R3's table.",
 		Residue:   "decode(encode(x)) == x for every x (value-level round trip); behaviour for rows > 64 KiB-1 and families > 255 bytes",
 		Technique: "decision-table extraction by CFG walk under truth assignments; symbolic linear forms over SSA; width/offset agreement",
 		Run:       runC10,
